@@ -3,7 +3,7 @@ Lemmas about `baseline_is_below` (the index walk is total on non-empty point lis
 every comparison as "below" when all points of the first list lie lower) and about the
 extent of a baseline; invariance of all of it under translation.
 -/
-import PagexmlModel.Model.C15
+import PagexmlModel.Lemmas.C15Consts
 
 namespace Pagexml.C15
 
@@ -140,7 +140,7 @@ theorem walk_spec (b1 b2 : List Pt) :
 theorem baselineIsBelow_spec (b1 b2 : List Pt) (h1 : b1 ≠ []) (h2 : b2 ≠ []) :
     ∃ i1 i2 nb no, startIdx b2 b1 0 = .ok i1 ∧ startIdx b1 b2 0 = .ok i2 ∧ i1 < b1.length ∧ i2 < b2.length ∧
       walk b1 b2 (b1.length + b2.length + 1) i1 i2 0 0 = .ok (nb, no) ∧ 1 ≤ no ∧ no < b1.length + b2.length ∧
-      nb ≤ no ∧ baselineIsBelow b1 b2 = .ok (decide (2 * nb > no)) ∧
+      nb ≤ no ∧ baselineIsBelow b1 b2 = .ok (ratioGt nb no Generated.C15.baselineBelowRatio) ∧
       ((∀ p ∈ b1, ∀ q ∈ b2, p.2 > q.2) → nb = no) := by
   obtain ⟨i1, e1, _, l1⟩ := startIdx_spec b2 h2 b1 0 h1
   obtain ⟨i2, e2, _, l2⟩ := startIdx_spec b1 h1 b2 0 h2
@@ -160,8 +160,7 @@ theorem baselineIsBelow_of_all_lower (b1 b2 : List Pt) (h1 : b1 ≠ []) (h2 : b2
     (h : ∀ p ∈ b1, ∀ q ∈ b2, p.2 > q.2) : baselineIsBelow b1 b2 = .ok true := by
   obtain ⟨_, _, nb, no, _, _, _, _, _, n1, _, _, e, hall⟩ := baselineIsBelow_spec b1 b2 h1 h2
   rw [e, hall h]
-  simp only [Except.ok.injEq, decide_eq_true_eq]
-  omega
+  exact congrArg _ (ratioGt_self consts_baseline_below_ratio_proper.2 (by omega))
 
 /-! ### translation -/
 
